@@ -77,6 +77,10 @@ def cases(tier):
             for nrewind in (2, 3):
                 yield dict(mols=mols, tier=tier, idx=i, boxsrc="box", inp="c-complete", res=res, grid=True, fault=2, nrewind=nrewind)
                 i += 1
+            # the same input together with a distance restraint between two residues (restraints look at the molecule's
+            # growth tree before the walk starts), without injected failures
+            yield dict(mols=mols, tier=tier, idx=i, boxsrc="box", inp="c-complete", res=res, grid=True, restr=True)
+            i += 1
             # the same with the other residues supplied as centres only (-mc): abandoned attempts must keep them
             yield dict(mols=mols, tier=tier, idx=i, boxsrc="none", inp="mc-complete", res=res, grid=True, fault=2, nrewind=2)
             i += 1
@@ -98,6 +102,11 @@ def materialise(cfg):
         sysd["grid"] = GRID
     elif not cfg["boxsrc"].startswith("dens"):
         sysd["kwargs"]["grid_spacing"] = 1.0
+    if cfg.get("restr"):
+        last_type, last_count = mols[-1]
+        nres = len(G.TYPES[last_type]["res"])
+        first_idx = sum(c for _, c in mols[:-1])
+        sysd["bld_extra"] = ["[ molecule ]", f"{last_type} {first_idx} {first_idx + last_count}", "[ distance_restraints ]", f"1 {nres - 1} 1.2 1.0"]
     rl = residue_list(sysd)
     exp_box = None
     if cfg["inp"]:
